@@ -787,7 +787,9 @@ def add_poison_gadget(rnd, spec):
     forms = [a for a in local if is_formula_cell(dag.cell[a])] or local
     c1, f1 = rnd.choice(local), rnd.choice(forms)
     p_, q_ = mk(sheet, 36, 1), mk(sheet, 36, 2)
-    spec['cells'].append({'a': p_, 'f': f'=ROW(Missing!A5)+{split_addr(c1)[1]}', 'p': [c1],
+    bad = rnd.choice(('ROW(Missing!A5)', 'ROW(Missing!A5)', 'SUM((A1):(C3))'))
+    # (a sheet that does not exist / a formula pycel's parser gives up on)
+    spec['cells'].append({'a': p_, 'f': f'={bad}+{split_addr(c1)[1]}', 'p': [c1],
                           'd': [], 'poison': True})
     spec['cells'].append({'a': q_, 'f': f'=A36+{split_addr(f1)[1]}', 'p': [p_, f1], 'd': [],
                           'poison': True})
